@@ -32,6 +32,13 @@ def gen_scenario(rng):
                            "cb": rng.choice(["ok", "ok", "ok", "raises", "arity0", "arity1", "raises-base"]),
                            "shape": rng.choice(["function", "function", "partial", "nameless", "temp-method",
                                                 "kept-method"])})
+    sc["regs2"] = []
+    if rng.random() < 0.3:
+        # a second thread registering callbacks on the same future
+        for _ in range(rng.choice([1, 1, 2])):
+            sc["regs2"].append({"delay_ms": rng.choice([0, 0, 0.1, 0.5, 1, 2, 4]),
+                                "cb": rng.choice(["ok", "ok", "raises"]),
+                                "shape": rng.choice(["function", "partial", "kept-method"])})
     for _ in range(rng.choice([0, 1, 1, 2])):
         ops = []
         for _ in range(rng.randint(1, 4)):
@@ -83,7 +90,7 @@ class FutureRun(object):
             self.exc = cls("task failed")
         self.args = (object(),)
         self.kwargs = {"k": object()}
-        self.extras = [object() for _ in sc["regs"]]
+        self.extras = [object() for _ in sc["regs"] + sc.get("regs2", [])]
         self.frozen = None
 
     # the task body
@@ -141,9 +148,9 @@ class FutureRun(object):
         except BaseException as ex:  # noqa
             h.ev("exec_ret", call=c, out="own-exc" if ex is self.exc else "foreign-exc:" + type(ex).__name__)
 
-    def registrar(self, fut):
+    def registrar(self, fut, regs=None, base=0):
         h = self.h
-        for i, reg in enumerate(self.sc["regs"]):
+        for i, reg in enumerate(self.sc["regs"] if regs is None else regs, base):
             if reg["delay_ms"]:
                 time.sleep(reg["delay_ms"] / 1000.0)
             cb = self.make_cb(i, reg["cb"])
@@ -213,6 +220,9 @@ class FutureRun(object):
             fut = tp.FutureResult()
             threads.append(threading.Thread(target=self.executor, args=(fut,), name="vf-executor"))
         threads.append(threading.Thread(target=self.registrar, args=(fut,), name="vf-registrar"))
+        if sc.get("regs2"):
+            threads.append(threading.Thread(target=self.registrar, args=(fut, sc["regs2"], len(sc["regs"])),
+                                            name="vf-registrar2"))
         for i, ops in enumerate(sc["observers"]):
             threads.append(threading.Thread(target=self.observer, args=(fut, ops), name="vf-observer%d" % i))
         for t in threads:
@@ -264,7 +274,7 @@ def check(events, sc):
     E = X = None
     regs = {}
     cbs = {}
-    base_cb = any(r["cb"] == "raises-base" for r in sc["regs"])
+    base_cb = any(r["cb"] == "raises-base" for r in sc["regs"] + sc.get("regs2", []))
     for seq, kind, name, f in events:
         if kind == "body_end":
             E = seq
@@ -280,7 +290,8 @@ def check(events, sc):
             regs[f["reg"]] = {"call": seq, "ret": None, "cb": f["cb"]}
         elif kind == "reg_ret":
             regs[f["reg"]]["ret"] = seq
-            if f["out"] != "returned" and regs[f["reg"]]["cb"] != "raises-base":
+            # (a callback calling sys.exit() ends the thread that happens to invoke it, which may be another registrar)
+            if f["out"] != "returned" and not base_cb:
                 out.append(("callback-exception-escaped-set_callback", {"reg": f["reg"], "out": f["out"]}))
         elif kind == "cb":
             cbs.setdefault(f["reg"], []).append((seq, f["args_ok"]))
@@ -300,7 +311,6 @@ def check(events, sc):
             out.append(("callback-arguments-wrong", {"reg": i}))
         if not complete or r["ret"] is None or X is None or E is None:
             continue
-        nxt = regs.get(i + 1)
         if r["call"] > X:
             # registered after completion was fully published: invoked exactly once, within set_callback
             if len(inv) != 1:
@@ -308,7 +318,11 @@ def check(events, sc):
             elif not (r["call"] < inv[0][0] < r["ret"]):
                 out.append(("late-registration-invoked-outside-set_callback", {"reg": i}))
             continue
-        superseded_maybe = nxt is not None and nxt["call"] < X
+        # the future has ONE callback slot until it completes: a registration may legitimately be replaced by another
+        # one (of the same or of another thread) that began before completion was published and could have been
+        # stored after it
+        superseded_maybe = any(o is not r and o["call"] < X and (o["ret"] is None or o["ret"] > r["call"])
+                               for o in regs.values())
         if superseded_maybe:
             continue  # 0 or 1 invocations are both legitimate
         if len(inv) != 1:
@@ -340,6 +354,17 @@ def check(events, sc):
                     out.append(("result-timeout-after-completion", {"call": call, "X": X}))
     if len(seen_vals) > 1:
         out.append(("result-observations-disagree", {"seen": sorted(seen_vals)}))
+    # once result() has delivered the outcome to anybody, the future is done for everybody
+    delivered = [seq for seq, kind, name, f in events if kind == "result_ret" and f["out"] in ("own-value", "own-exc")]
+    if delivered:
+        first = min(delivered)
+        for seq, kind, name, f in events:
+            if kind == "done_ret" and not f.get("raised") and f["call"] > first and not f["value"]:
+                out.append(("done-false-after-result-was-delivered", {"delivered_at": first, "done_call": f["call"]}))
+                break
+            if kind == "result_ret" and f["call"] > first and f["out"] == "timeout":
+                out.append(("result-timeout-after-result-was-delivered", {"delivered_at": first, "call": f["call"]}))
+                break
     for seq, kind, name, f in events:
         if kind == "next_task" and not f["ran"]:
             out.append(("worker-stopped-after-callback", {}))
